@@ -10,6 +10,11 @@
 (*  "select_us_as_ms"      select computes its timeout in microseconds and      *)
 (*                         consumes it as milliseconds                          *)
 (*  "select_negative_abort" a negative timeval aborts instead of EINVAL         *)
+(*  "nominal_slices"       poll / select subtract the nominal length of each    *)
+(*                         slice from the time left instead of the time that    *)
+(*                         really passed: the jitter of every slice adds up, so *)
+(*                         the slack grows with the timeout instead of staying  *)
+(*                         bounded (code before eb6864f: 1 s took 1.29 s)       *)
 EXTENDS Naturals, Integers, Sequences, TLC
 
 CONSTANTS MaxT, Slice, Deviations
@@ -48,10 +53,13 @@ Wait(j) ==
                 [] call \in {"poll", "select"} -> Min(left, x)
                 [] call = "cond" -> Min(left, Slice)
      IN /\ now' = now + d + j
-        /\ left' = left - d
+        \* the time left is measured against a deadline (sleeps: timer heap entry, cond: absolute
+        \* time, poll / select: deadline computed once), so jitter is not carried over
+        /\ left' = IF call \in {"poll", "select"} /\ "nominal_slices" \in Deviations THEN left - d
+                   ELSE IF left >= d + j THEN left - d - j ELSE 0
         /\ x' = IF call \in {"poll", "select"} /\ x < 16 THEN x * 2 ELSE x
         /\ IF call \in {"poll", "select"} THEN pc' = "probe" /\ UNCHANGED ret
-           ELSE IF left - d = 0 THEN pc' = "done" /\ ret' = "timeout" ELSE pc' = "wait" /\ UNCHANGED ret
+           ELSE IF left <= d + j THEN pc' = "done" /\ ret' = "timeout" ELSE pc' = "wait" /\ UNCHANGED ret
   /\ UNCHANGED <<call, T, valid, probes, dead>>
 
 Next == Start \/ Probe \/ \E j \in 0..1 : Wait(j)
@@ -59,8 +67,10 @@ Spec == Init /\ [][Next]_vars /\ WF_vars(Next)
 
 \* C14
 NeverEarly == (pc = "done" /\ valid) => now >= T
-\* slack: one tick of jitter per wait; a wait is at least 1 ms except the last
-NotLate == (pc = "done" /\ valid /\ ret = "timeout") => now <= 2 * T + 1
+\* bounded slack: only the jitter of the last wait can carry the call past its deadline, whatever T is
+\* (with "select_us_as_ms" the call works on 4 T and is late by a factor; with "nominal_slices" the
+\* jitter of every slice is added)
+NotLate == (pc = "done" /\ valid /\ ret = "timeout") => now <= T + 1
 InvalidRejected == (pc = "done" /\ ~valid) => ret = "EINVAL" /\ now = 0 /\ ~dead
 Terminates == <>(pc = "done")
 =============================================================================
